@@ -25,6 +25,13 @@ ASSUMPTIONS = ["vendor tables transcribed in sa/spec/tables.py (DESIGN Appendix 
 FLOORS = {"C05.R1": 60, "C05.R2": 12, "C05.R3": 6, "C05.R4": 5, "C05.R5": 7, "C05.R6": 8}
 
 
+def r1_ability(ctx):
+    """R1-R4 for the two ability decoders only (re-used by C09/C19: the model is built from these records)."""
+    for key, spec in T.STATUS.items():
+        if "ac_ability" in str(key):
+            check_decoder(ctx, key, spec)
+
+
 def run(ctx):
     for key, spec in T.STATUS.items():
         check_decoder(ctx, key, spec)
